@@ -170,7 +170,8 @@ func writeCanon(b *bytes.Buffer, v any, depth int) {
 	case error:
 		b.WriteString("<!error:" + v.Error() + ">")
 	default:
-		fmt.Fprintf(b, "<!%T:%v>", v, v)
+		// not a jq value at all (only the type is shown: such values may hold pointers)
+		fmt.Fprintf(b, "<!%T>", v)
 	}
 }
 
@@ -263,7 +264,7 @@ func (o Obs) String() string {
 }
 
 func sameObs(a, b Obs) bool {
-	if a.Err != b.Err || len(a.Outs) != len(b.Outs) {
+	if a.Err != b.Err || a.Panic != b.Panic || len(a.Outs) != len(b.Outs) {
 		return false
 	}
 	for i := range a.Outs {
@@ -277,6 +278,8 @@ func sameObs(a, b Obs) bool {
 // diffKind classifies a difference narrowly for the violation signature.
 func diffKind(ref, fq Obs) string {
 	switch {
+	case fq.Panic && !ref.Panic:
+		return "fq-go-panic"
 	case ref.Err && !fq.Err:
 		return "ref-errors-fq-succeeds"
 	case !ref.Err && fq.Err:
